@@ -1,5 +1,6 @@
 import Naga.Driver.C07
 import Naga.Driver.C18
+import Naga.Driver.C16
 
 /-! Line-protocol driver: `nagadrv <cmd> [args]`, one input line ↦ one output line. -/
 
@@ -16,4 +17,5 @@ def main (args : List String) : IO UInt32 := do
   match args with
   | ["c07", model] => loop stdin stdout (Naga.Driver.C07.handle model); return 0
   | ["c18"] => loop stdin stdout Naga.Driver.C18.handle; return 0
+  | ["c16"] => loop stdin stdout Naga.Driver.C16.handle; return 0
   | _ => IO.eprintln s!"nagadrv: unknown command {args}"; return 2
